@@ -159,6 +159,39 @@ func scheduleHorizon(in []byte) (any, error) {
 			rows = append(rows, row)
 		}
 	}
+	// a received_at in the far FUTURE (a replay tool stamping 2300-01-01; the Admin publish API accepts it): it is the newest message, the
+	// one received an hour ago is the oldest
+	for _, backend := range []string{"memory", "sqlite"} {
+		for k, y := range req.Years {
+			clk := &clock{}
+			clk.set(req.NowNs)
+			st, closeFn, _, err := openStore(backend, qCfg{MaxDepth: 2, DropOldest: true}, clk, filepath.Join(req.Dir, "shf-"+backend+"-"+itoa(k)+".db"))
+			row := shRow{Backend: backend, Case: "received_at-future-" + itoa(y/100) + itoa(y%100)}
+			if err != nil {
+				row.Err = err.Error()
+				rows = append(rows, row)
+				continue
+			}
+			_ = st.Enqueue(queue.Envelope{ID: "future", Route: "/r", Target: "t", Payload: []byte("x"), ReceivedAt: time.Date(y, 1, 1, 0, 0, 0, 0, time.UTC)})
+			_ = st.Enqueue(queue.Envelope{ID: "recent", Route: "/r", Target: "t", Payload: []byte("x"), ReceivedAt: time.Unix(0, req.NowNs).Add(-time.Hour).UTC()})
+			if e := st.Enqueue(queue.Envelope{ID: "new", Route: "/r", Target: "t", Payload: []byte("x")}); e != nil {
+				row.Err = e.Error()
+			}
+			have := map[string]bool{}
+			if l, e := st.ListMessages(queue.MessageListRequest{Limit: 5}); e == nil {
+				for _, m := range l.Items {
+					have[m.ID] = true
+				}
+			}
+			for _, id := range []string{"recent", "future", "new"} {
+				if !have[id] {
+					row.Evicted += id
+				}
+			}
+			closeFn()
+			rows = append(rows, row)
+		}
+	}
 	return map[string]any{"rows": rows}, nil
 }
 
